@@ -15,8 +15,22 @@ const valAlpha = "abcdefghijklmnopqrstuvwxyzABCDEFGHIJKLMNOPQRSTUVWXYZ0123456789
 
 func valueWord(r *core.Rand) string { return r.Str(valAlpha, r.Range(1, 9)) }
 
+// LongLine is a single line longer than bufio's default 4096-byte buffer.
+func LongLine(r *core.Rand) string {
+	n := r.Pick3(4090, 4096, 4097, 5000, 8192, 8200, 12000)
+	var sb strings.Builder
+	for sb.Len() < n {
+		sb.WriteString(valueWord(r))
+		sb.WriteString(" ")
+	}
+	return strings.TrimRight(sb.String(), " ")
+}
+
 // ValueLine is a single-line text without leading/trailing blanks.
 func ValueLine(r *core.Rand) string {
+	if r.Chance(1, 150) {
+		return LongLine(r)
+	}
 	n := r.Range(1, 4)
 	w := make([]string, n)
 	for i := range w {
